@@ -145,6 +145,28 @@ def work(task):
     return part
 
 
+_DECL_CACHE = {}
+
+
+def declared_symbol(ctx, ty, variant):
+    """Declared symbol of a unit from the hand-written tables (catalogue, astro, synthetic) or the task's declaration."""
+    key = (ty, variant)
+    if key in _DECL_CACHE:
+        return _DECL_CACHE[key]
+    decl = ctx.get("decl")
+    if decl is None:
+        try:
+            import declared
+            decl = declared.declared_units(ty)
+        except Exception:
+            decl = None
+    res = None
+    if decl is not None:
+        res = next((e["symbol"] for e in decl[1] if e["variant"] == variant), None)
+    _DECL_CACHE[key] = res
+    return res
+
+
 def decompositions(s, sp):
     """All ways to read s as padding + core under the spec; yields core strings."""
     width = sp.get("width")
@@ -224,6 +246,9 @@ def judge(part, case, resps, ctx):
         viol("unit_display", "unit displays as %r, its symbol under the same spec gives %r" % (r["us"], r["nsym"]), "unit")
     if r["sym"] != uu["symbol"]:
         viol("unit_symbol", "symbol() changed between calls")
+    dsym = declared_symbol(ctx, ty, uu["dbg"])
+    if dsym is not None and dsym != uu["symbol"]:
+        viol("declared_symbol", "the unit reports (and displays) the symbol %r, declared %r" % (uu["symbol"], dsym), "declared")
     s = r["s"]
     sym = uu["symbol"]
     nontrivial = bool(sp)
@@ -263,7 +288,7 @@ def judge(part, case, resps, ctx):
         val = Fraction(amt_text)
         rounds_to_zero = val == 0
         if is_neg:
-            ok_sign = signs == "-" or (rounds_to_zero and signs in ("", "+" if sp.get("plus") else ""))
+            ok_sign = signs == "-"          # "a single leading minus for negative amounts", also when the digits round to zero
         elif neg_bit:       # negative zero: minus optional
             ok_sign = signs in (("-", "+") if sp.get("plus") else ("-", ""))
         else:
